@@ -49,6 +49,12 @@ namespace GeographicLib {
     real
       xf = x - tile_ * xh,
       yf = y - tile_ * yh;
+    // For tiny negative x, x / tile_ can underflow to -0 (giving xf < 0) and
+    // x - tile_ * xh can round up to tile_.  Ensure xf, yf are in [0, tile_).
+    if (xf < 0) { --xh; xf += tile_; }
+    if (yf < 0) { --yh; yf += tile_; }
+    if (xf >= tile_) xf = nextafter(real(tile_), real(0));
+    if (yf >= tile_) yf = nextafter(real(tile_), real(0));
     xh += tileoffx_;
     yh += tileoffy_;
     int z = 0;
